@@ -238,6 +238,9 @@ func NewWorld(sess []SessDef, logins []LoginDef) *World {
 			// the pid of the LOGIN record decide): it is filled with values that point at OTHER tracked logins and
 			// sessions, so that any use of it for correlation, session end or identity shows up as a difference.
 			other := sess[(si+1)%len(sess)]
+			if typ == auparse.AUDIT_CRED_DISP && si%2 == 0 {
+				e.Result = "fail" // a credential disposal that reports failure is the session's credential disposal all the same
+			}
 			e.Process.PPID = other.PID // the parent happens to be another login's sshd
 			e.Process.Name, e.Process.CWD, e.Process.Title = "sshd", "/", "sshd: user [priv]"
 			switch {
